@@ -105,14 +105,14 @@ def falsy_zero_lint(model, rep, R, unit_filter, func_filter=None, witness=None):
 
 class Renamed:
     """report proxy: rules written for another property report under C20 rule ids"""
-    def __init__(self, rep, mapping):
-        self._rep, self._map = rep, mapping
+    def __init__(self, rep, mapping, default="C20.x-"):
+        self._rep, self._map, self._default = rep, mapping, default
 
     def _r(self, rule):
         for k, v in self._map.items():
             if rule.startswith(k):
                 return v
-        return "C20.x-" + rule
+        return self._default + rule
 
     def hold(self, rule, *a, **k):
         return self._rep.hold(self._r(rule), *a, **k)
